@@ -254,9 +254,24 @@ function prependPath(parentPath: string[], err: DecodeError): DecodeError {
   return { ...err, path: [...parentPath, ...err.path] };
 }
 
-// JSON.stringify throws on bigint, and rejected values can contain one anywhere
+// JSON.stringify throws on bigint and on cyclic values, and rejected values can contain either anywhere
 function safeStringify(value: unknown): string {
-  const out = JSON.stringify(value, (_key, v) => (typeof v === "bigint" ? `${v}n` : v));
+  const plain = (_key: string, v: unknown) => (typeof v === "bigint" ? `${v}n` : v);
+  let out: string | undefined;
+  try {
+    out = JSON.stringify(value, plain);
+  } catch {
+    // a cyclic value: every object is written once
+    const seen = new WeakSet<object>();
+    out = JSON.stringify(value, (key, v) => {
+      const w = plain(key, v);
+      if (typeof w === "object" && w !== null) {
+        if (seen.has(w)) return "[Circular]";
+        seen.add(w);
+      }
+      return w;
+    });
+  }
   return out === undefined ? String(value) : out;
 }
 
